@@ -4,7 +4,7 @@
 From Coq Require Import List NArith ZArith Bool Lia.
 From Falco Require Import Base.Res Base.Bytes Model.StoreSyntax Model.Store
   Proofs.StoreHeap Proofs.StoreInv Proofs.StoreMain Proofs.StoreFrame
-  Model.TestRun Model.TestRunCover Model.TestRunInst Proofs.TestRunCoverProofs.
+  Model.TestRun Model.TestRunCover Model.TestRunInst Proofs.TestRunProofs Proofs.TestRunCoverProofs.
 Import ListNotations.
 
 Theorem quiet_condition_in_store_model Os P n e σ l σ' :
@@ -65,9 +65,9 @@ Proof.
   - destruct okq_all as (_ & B & _). apply B.
 Qed.
 
-Lemma run_steps_cov P b : forall σ k lg,
-  run_steps unit N tstate tt (map (interp true P) b) σ k lg =
-  run_steps unit N tstate tt (map (interp false P) b) σ k lg.
+Lemma run_steps_cov P sc b : forall σ k lg,
+  run_steps N N tstate sc (map (interp true P) b) σ k lg =
+  run_steps N N tstate sc (map (interp false P) b) σ k lg.
 Proof.
   induction b as [|s r IH]; intros σ k lg; simpl; auto.
   destruct s; simpl; auto.
@@ -79,14 +79,14 @@ Proof.
 Qed.
 
 Lemma run_scopes_cov P t ss : forall σ c,
-  run_scopes unit N tstate (list tstep) (irun_body true P) t ss σ c =
-  run_scopes unit N tstate (list tstep) (irun_body false P) t ss σ c.
+  run_scopes N N tstate (list tstep) (irun_body true P) t ss σ c =
+  run_scopes N N tstate (list tstep) (irun_body false P) t ss σ c.
 Proof.
   induction ss as [|s r IH]; intros σ c; simpl; auto.
   destruct (t_skip t).
   - rewrite IH. reflexivity.
-  - unfold irun_body, run_body_steps. destruct s. rewrite run_steps_cov.
-    destruct (run_steps unit N tstate tt (map (interp false P) (t_body t)) σ 0 []) as [[[k v] lg] σ'].
+  - unfold irun_body, run_body_steps. rewrite run_steps_cov.
+    destruct (run_steps N N tstate s (map (interp false P) (t_body t)) σ 0 []) as [[[k v] lg] σ'].
     rewrite IH. reflexivity.
 Qed.
 
@@ -95,6 +95,32 @@ Theorem inst_coverage_independent P ts : irun_file true P ts = irun_file false P
 Proof.
   unfold irun_file. generalize c0. induction ts as [|t r IH]; intros c; simpl; auto.
   unfold run_test. rewrite run_scopes_cov.
-  destruct (run_scopes unit N tstate (list tstep) (irun_body false P) t (t_scopes t) ([], []) c) as [cs1 c1].
+  destruct (run_scopes N N tstate (list tstep) (irun_body false P) t (t_scopes t) ([], []) c) as [cs1 c1].
   rewrite IH. reflexivity.
 Qed.
+
+(* the same with describe groups and hooks *)
+Theorem inst_coverage_independent_items P is : irun_items true P is = irun_items false P is.
+Proof.
+  unfold irun_items. apply run_items_ext. intros s b σ. unfold irun_body, run_body_steps. apply run_steps_cov.
+Qed.
+
+(* ---- inside ONE describe group the tests share the interpreter: their verdicts DO depend on order.
+   test a: set req.http.f0 = "1";   test b: assert.is_notset(req.http.f0);   (no hooks) *)
+Definition t_a : itest := {| t_name := 0; t_scopes := [0%N]; t_skip := false; t_body := [TSet 0] |}.
+Definition t_b : itest := {| t_name := 1; t_scopes := [0%N]; t_skip := false; t_body := [TAssertFlag 0 false] |}.
+Definition grp (ts : list itest) : iitem :=
+  IGroup {| g_name := 7; g_before := fun _ => None; g_after := fun _ => None; g_tests := ts |}.
+Definition verdict_of (name : N) (r : option (list (gcase N N) * counter)) : option verdict :=
+  match r with
+  | Some (cs, _) => match filter (fun x => N.eqb (tc_name (snd x)) name) cs with x :: _ => Some (tc_verdict (snd x)) | [] => None end
+  | None => None
+  end.
+
+Theorem group_order_dependent_refuted :
+  verdict_of 1 (irun_items false [] [grp [t_b; t_a]]) = Some Pass /\
+  verdict_of 1 (irun_items false [] [grp [t_a; t_b]]) = Some FailAssert /\
+  (* while as ungrouped tests they do not *)
+  verdict_of 1 (irun_items false [] [ISingle t_a; ISingle t_b]) = Some Pass /\
+  verdict_of 1 (irun_items false [] [ISingle t_b; ISingle t_a]) = Some Pass.
+Proof. vm_compute. repeat split; reflexivity. Qed.
